@@ -602,3 +602,75 @@ func VerifC12Handlers() {
 		verifrt.Reach("registration-failed")
 	}
 }
+
+// ---- the real InformerMap: one Delete from an arbitrary set of running informers ----
+
+type vSyncedInformer struct {
+	cache.SharedIndexInformer // nil: identity only
+	kind                      string
+}
+
+func (v *vSyncedInformer) HasSynced() bool { return true }
+
+func vChanClosed(ch chan struct{}) bool {
+	select {
+	case _, ok := <-ch:
+		return !ok
+	default:
+		return false
+	}
+}
+
+// VerifC12InformerMap: InformerMap.Delete/Get with real code from an arbitrary set of running informers. After the
+// last owner of a kind is freed the cache calls Delete; the informer must be stopped AND forgotten, so that a later
+// Watch of the kind starts a fresh one instead of being handed the stopped one; other kinds keep running; deleting
+// twice is harmless.
+func VerifC12InformerMap() {
+	kinds := []string{"A", "B", "C", "D"}
+	n := verifrt.IntRange("nKinds", 1, verifrt.Bound("maxKinds", 3))
+	im := &InformerMap{informers: map[schema.GroupVersionKind]mapEntry{}}
+	infs := make([]*vSyncedInformer, n)
+	chans := make([]chan struct{}, n)
+	present := make([]bool, n)
+	for k := 0; k < n; k++ {
+		present[k] = verifrt.Bool(kinds[k] + ".running")
+		if present[k] {
+			infs[k] = &vSyncedInformer{kind: kinds[k]}
+			chans[k] = make(chan struct{}, 1)
+			im.informers[vGVK(kinds[k])] = mapEntry{Informer: infs[k], Reader: vNopReader{}, StopCh: chans[k]}
+		}
+	}
+	victim := verifrt.IntRange("victim", 0, n-1)
+	ctx := context.Background()
+	err := im.Delete(ctx, vGVK(kinds[victim]))
+	verifrt.Assert(err == nil, "C12/delete-never-fails")
+	for k := 0; k < n; k++ {
+		_, still := im.informers[vGVK(kinds[k])]
+		if k == victim {
+			if present[k] {
+				verifrt.Assert(vChanClosed(chans[k]), "C12/delete-stops-the-informer")
+			}
+			verifrt.Assert(!still, "C12/stopped-informer-is-forgotten")
+			continue
+		}
+		verifrt.Assert(still == present[k], "C12/delete-leaves-other-kinds")
+		if present[k] {
+			verifrt.Assert(!vChanClosed(chans[k]), "C12/delete-leaves-other-kinds-running")
+		}
+	}
+	// a second Delete of the same kind (Free racing with Free, or a retry) is a no-op
+	verifrt.Assert(im.Delete(ctx, vGVK(kinds[victim])) == nil, "C12/delete-is-idempotent")
+	// the kinds still running are handed out as they are
+	for k := 0; k < n; k++ {
+		if k == victim || !present[k] {
+			continue
+		}
+		inf, _, gerr := im.Get(ctx, vGVK(kinds[k]), vObjOfKind(kinds[k]))
+		verifrt.Assert(gerr == nil && inf == cache.SharedIndexInformer(infs[k]), "C12/get-returns-the-running-informer")
+	}
+	if present[victim] {
+		verifrt.Reach("deleted-running")
+	} else {
+		verifrt.Reach("deleted-absent")
+	}
+}
